@@ -97,7 +97,15 @@ fn instance(sk: &Value, i: &Value) -> Instance {
     inst.from_grpc = b(&i["fg"]);
     inst.from_cluster = u(&i["fc"]);
     inst.client_id = arc(client_s(u(&i["cl"])));
+    if let Some(cn) = i["cn"].as_str() {
+        inst.cluster_name = cn.to_owned();
+    }
     inst
+}
+
+/// optional cluster filter string of a query op (4th element)
+fn cluster_of(op: &Value) -> String {
+    op[3].as_str().unwrap_or("").to_owned()
 }
 
 fn tag(v: &Value) -> Option<InstanceUpdateTag> {
@@ -204,6 +212,8 @@ fn dump_num(d: &Value) -> Value {
             "last_empty": s["last_empty_times"],
         }));
     }
+    // the iteration order of service_map (a HashMap order): what time_check's budget cut-off depends on
+    let order: Vec<Value> = services.iter().map(|x| x["map_key"].clone()).collect();
     services.sort_by_key(|x| {
         let k = &x["map_key"];
         (u(&k[0]), u(&k[1]), u(&k[2]))
@@ -257,6 +267,7 @@ fn dump_num(d: &Value) -> Value {
             json!([sk[0], sk[1], sk[2], key_num(k[3].as_str().unwrap(), u(&k[4]))])
         }),
         "range": d["range"],
+        "order": order,
     })
 }
 
@@ -495,12 +506,12 @@ async fn run_case(case: Value) -> Value {
                 }
             }
             // ---------------- queries
-            "qlist" => match send(&addr, NamingCmd::QueryList(skey(&op[1]), String::new(), b(&op[2]), None)).await {
+            "qlist" => match send(&addr, NamingCmd::QueryList(skey(&op[1]), cluster_of(op), b(&op[2]), None)).await {
                 Ok(NamingResult::InstanceList(l)) => json!({ "hosts": inst_list(&l) }),
                 _ => json!("err"),
             },
             "qstr" => {
-                match send(&addr, NamingCmd::QueryListString(skey(&op[1]), String::new(), b(&op[2]), None)).await {
+                match send(&addr, NamingCmd::QueryListString(skey(&op[1]), cluster_of(op), b(&op[2]), None)).await {
                     Ok(NamingResult::InstanceListString(s)) => {
                         let v: Value = serde_json::from_str(&s).unwrap_or(Value::Null);
                         let mut hosts: Vec<(u64, Value)> = v["hosts"]
@@ -523,7 +534,7 @@ async fn run_case(case: Value) -> Value {
                     _ => json!("err"),
                 }
             }
-            "qinfo" => match send(&addr, NamingCmd::QueryServiceInfo(skey(&op[1]), String::new(), b(&op[2]))).await {
+            "qinfo" => match send(&addr, NamingCmd::QueryServiceInfo(skey(&op[1]), cluster_of(op), b(&op[2]))).await {
                 Ok(NamingResult::ServiceInfo(info)) => {
                     json!({"hosts": inst_list(&info.hosts.unwrap_or_default()), "reach": info.reach_protection_threshold})
                 }
